@@ -30,6 +30,7 @@ type HarnessDef struct {
 	MaxPaths  [2]int // optional safety cap per tier (hit => reduced bound reported as failure)
 	NoReplay  bool   // harness cannot be replayed natively (concurrent schedules, model-only environment)
 	SolverMs  [2]int
+	Quiet     []string // import-path prefixes: no preemption inside these packages (schedule reduction, stated in the evidence)
 	OSSwap    []string // packages whose "os" import is pointed at verifrt/vos in the native replay build (real op log for crash images)
 }
 
@@ -164,6 +165,9 @@ func cmdCheck(args []string) int {
 		cfg := sym.DefaultConfig()
 		cfg.Race = h.Race
 		cfg.MapOrderNondet = h.MapOrder
+		for _, q := range h.Quiet {
+			cfg.QuietPkgs = append(cfg.QuietPkgs, fullPkg(q))
+		}
 		cfg.Preemptions = 2 + ti
 		if h.Preempt[ti] > 0 {
 			cfg.Preemptions = h.Preempt[ti]
